@@ -190,7 +190,14 @@ func Drive[C any](t *testing.T, r Runner[C]) {
 	defer st.flush(filepath.Join(out, "stats.json"), filepath.Join(out, "hashes.bin"))
 
 	jf, _ := os.OpenFile(filepath.Join(out, "journal.json"), os.O_CREATE|os.O_RDWR|os.O_TRUNC, 0o644)
+	// the case before the current one is kept too: a goroutine the library leaves behind can
+	// bring the process down while the next case is running
+	jp, _ := os.OpenFile(filepath.Join(out, "journal.prev.json"), os.O_CREATE|os.O_RDWR|os.O_TRUNC, 0o644)
 	journal := func(b []byte) {
+		if jp != nil && len(curCase) > 0 {
+			_, _ = jp.WriteAt(curCase, 0)
+			_ = jp.Truncate(int64(len(curCase)))
+		}
 		curCase = b
 		if jf != nil {
 			_, _ = jf.WriteAt(b, 0)
